@@ -178,7 +178,7 @@ class Core:
     def certify_while(self, f: Func, loop: ast.While) -> Cert:
         sa = self.sa
         tried = []
-        back, run, out = sa.loop_effect(f, loop)
+        back, run, out = self.le(f, loop)
         unresolved = list(run.unresolved) + list(run.unknown_calls)
         if back is None:
             return Cert("K0", "no path of the body reaches the back edge (every path leaves by break/return/raise)")
@@ -220,7 +220,7 @@ class Core:
         cands = self.exit_candidates(f, loop)
         for kind, name, sign, bound, ge1, cnode in cands:
             if kind == "counter":
-                bk, rn, _ = sa.loop_effect(f, loop, counters={name: ge1})
+                bk, rn, _ = self.le(f, loop, counters={name: ge1})
                 if bk is None:
                     continue
                 d = bk.p("#" + name)
@@ -230,7 +230,7 @@ class Core:
                     return Cert("K3", "`%s` shrinks (%s) on every path head->back edge; exit condition `%s` bounds it from below" % (name, iv_str(d), _u(cnode)))
                 tried.append("counter `%s`: change per iteration %s" % (name, iv_str(d)))
             else:
-                bk, rn, _ = sa.loop_effect(f, loop, collections={name})
+                bk, rn, _ = self.le(f, loop, collections={name})
                 if bk is None:
                     continue
                 d = bk.p("#len:" + name)
@@ -259,6 +259,72 @@ class Core:
         elif run.touches:
             fail.definite = self.definite_witness(f, loop, cands)
         return fail
+
+    # ------------------------------------------------------------------ assignments that end the loop
+    def le(self, f, loop, **kw):
+        """loop_effect in which paths through an assignment that makes the loop guard false are treated as leaving"""
+        if isinstance(loop, ast.While) and "cut" not in kw:
+            kw["cut"] = self.exit_cuts(f, loop)
+        return self.sa.loop_effect(f, loop, **kw)
+
+    def exit_cuts(self, f: Func, loop: ast.While):
+        """statements `v = <const>` in the body after which the loop guard is certainly false (three-valued evaluation
+        with only v known), for variables v of the guard that the body only ever assigns such constants:
+        `found = True` under `while not found`, `event = START_TAG` under `while self._valid and event is None`,
+        `self._valid = False`.  A path through such a statement leaves the loop at the next test."""
+        key = ("exit_cuts", id(loop))
+        cache = self.__dict__.setdefault("_cuts", {})
+        if key in cache:
+            return cache[key]
+        names = {dotted(n) for n in ast.walk(loop.test) if isinstance(n, (ast.Name, ast.Attribute))} - {None}
+        sn = self.cg.self_name(f)
+        cuts = set()
+        for v in sorted(names):
+            assigns, ok = [], True
+            for n in own_nodes(loop):
+                tgts = []
+                if isinstance(n, ast.Assign):
+                    tgts = [(t, n.value) for t in n.targets]
+                elif isinstance(n, (ast.AugAssign, ast.AnnAssign)):
+                    tgts = [(n.target, None)]
+                elif isinstance(n, (ast.For, ast.AsyncFor, ast.comprehension)):
+                    tgts = [(x, None) for x in ast.walk(n.target) if isinstance(x, (ast.Name, ast.Attribute))]
+                elif isinstance(n, ast.NamedExpr):
+                    tgts = [(n.target, None)]
+                elif isinstance(n, ast.withitem) and n.optional_vars is not None:
+                    tgts = [(x, None) for x in ast.walk(n.optional_vars) if isinstance(x, ast.Name)]
+                for t, val in tgts:
+                    for x in ([t] if not isinstance(t, (ast.Tuple, ast.List)) else ast.walk(t)):
+                        if isinstance(x, (ast.Name, ast.Attribute)) and dotted(x) == v:
+                            if val is None or x is not t:
+                                ok = False
+                            else:
+                                c = self.b.fold(val, f)
+                                if isinstance(c, (int, bool, str, bytes, type(None))) and not isinstance(c, Exception):
+                                    assigns.append((n, c))
+                                else:
+                                    ok = False
+            if not ok or not assigns:
+                continue
+            if "." in v:
+                # an attribute: nobody else may give it a value that keeps the guard true
+                root, _, attr = v.partition(".")
+                if root != sn or "." in attr or f.cls is None:
+                    continue
+                bad = False
+                for m, stmt, tgt, val, slot in self.b._stores(f.cls, attr):
+                    if m.name == "__init__" or any(stmt is a for a, _ in assigns):
+                        continue
+                    c = self.b.fold(val, m) if val is not None and slot is None else None
+                    if not isinstance(c, (int, bool, str, bytes, type(None))) or self._tv(loop.test, {v: (c,)}, f) is not False:
+                        bad = True
+                if bad:
+                    continue
+            if all(self._tv(loop.test, {v: (c,)}, f) is False for _, c in assigns):
+                cuts |= {id(n) for n, _ in assigns}
+        cache[key] = cuts
+        cache[("keep", id(loop))] = loop
+        return cuts
 
     # ------------------------------------------------------------------ exit conditions
     def exit_candidates(self, f: Func, loop):
@@ -522,6 +588,8 @@ class Core:
                 return (x.value,)
             if isinstance(x, ast.Name):
                 return env.get(x.id)
+            if isinstance(x, ast.Attribute) and dotted(x) in env:
+                return env[dotted(x)]
             v = None
             try:
                 if not any(isinstance(n, ast.Name) and (n.id in env or True) for n in ast.walk(x)):
@@ -662,6 +730,35 @@ class Core:
             return "exit condition `%s` depends on loop-carried state %s" % (_u(cond, 50), sorted(hit))
         return None
 
+    # ------------------------------------------------------------------ callees that can return without consuming
+    def callee_zero_path(self, tgt: Func, ckey, depth):
+        """Is there a syntactic path through `tgt`, followed with exact knowledge, that returns normally while the
+        stream `ckey` has not advanced?  (The summary interval [0, n] only says that this is not excluded.)"""
+        cache = self.__dict__.setdefault("_zero_cache", {})
+        key = (id(tgt.node), ckey)
+        if key in cache:
+            return cache[key]
+        cache[key] = False
+        res = False
+        if depth <= 3:
+            oracle = sa_oracle()
+            for _ in range(64):
+                r = _Run(self.sa, tgt)
+                r.oracle = oracle
+                o = r.block(tgt.node.body, SState())
+                ex = s_join(o.fall, o.ret)
+                if ex is not None and not r.loose:
+                    p = ex.p(ckey)
+                    if p[0] > -INF and p[0] <= 0 and all(r.read_result_is_inert(rc) for rc in r.unchecked_reads) \
+                            and all(self.callee_zero_path(t2, k2, depth + 1) for t2, k2 in r.zero_callees if (id(t2.node), k2) != key):
+                        res = True
+                        break
+                if not oracle.advance():
+                    break
+        cache[key] = res
+        cache[("keep", id(tgt.node))] = tgt
+        return res
+
     # ------------------------------------------------------------------ definite non-progress
     MAX_PATHS = 256
 
@@ -683,10 +780,11 @@ class Core:
             if kind == "comp":
                 back, run = sa.comp_effect(f, comp, gi, oracle=oracle)
             else:
-                back, run, _ = sa.loop_effect(f, loop, counters=counters, collections=colls, oracle=oracle,
+                back, run, _ = self.le(f, loop, counters=counters, collections=colls, oracle=oracle,
                                               inv_test=(lambda e: self.invariant(e, loop)))
             if back is not None and not run.loose:
-                ok = all(run.read_result_is_inert(rc) for rc in run.unchecked_reads)
+                ok = all(run.read_result_is_inert(rc) for rc in run.unchecked_reads) \
+                    and all(self.callee_zero_path(t_, k_, 0) for t_, k_ in run.zero_callees)
                 facts = []
                 for key in sorted(back.keys()):
                     if key.startswith("#"):
@@ -830,6 +928,42 @@ class Core:
                 if m2 is not None and any(isinstance(k, ast.Assign) and any(isinstance(tg, ast.Attribute) and tg.attr == ev for tg in k.targets)
                                           for k in own_nodes(m2.node)):
                     ev_assigns.append(n)
+        # the event may be collected in a local first:  event = None ... event = START_TAG ... if event is not None: self.<ev> = event
+        self._k2_alias = None
+        via = [n for n in ev_assigns if isinstance(n, ast.Assign) and isinstance(n.value, ast.Name)]
+        if len(via) == 1 and not const_assigns:
+            av = via[0].value.id
+            st_ = via[0]
+            pp = parent(st_)
+            top = pp is M.node or (isinstance(pp, ast.If) and parent(pp) is M.node and not pp.orelse
+                                   and all(isinstance(x, ast.Name) and x.id == av or not isinstance(x, ast.Name) for x in ast.walk(pp.test)))
+            consts, ok = {}, top and not any(p_.arg == av for p_ in cg._params_of(M))
+            for n in own_nodes(M.node):
+                if isinstance(n, ast.Name) and n.id == av and isinstance(n.ctx, (ast.Store, ast.Del)):
+                    pa = parent(n)
+                    if not (isinstance(pa, ast.Assign) and len(pa.targets) == 1 and pa.targets[0] is n):
+                        ok = False
+                    else:
+                        v = self.b.fold(pa.value, M)
+                        if isinstance(v, int) and not isinstance(v, bool):
+                            consts.setdefault(int(v), []).append(pa)
+                        elif not (isinstance(pa.value, ast.Constant) and pa.value.value is None):
+                            ok = False
+            if ok and consts:
+                # every assignment of a constant must be followed by leaving the loops it sits in (their guards test the local)
+                for val_, lst in consts.items():
+                    for a_ in lst:
+                        w = parent(a_)
+                        while w is not None and w is not M.node:
+                            if isinstance(w, ast.While) and self._tv(w.test, {av: (val_,)}, M) is not False:
+                                ok = False
+                            if isinstance(w, (ast.For, ast.AsyncFor)):
+                                ok = False
+                            w = parent(w)
+            if ok and consts:
+                const_assigns = consts
+                ev_assigns = [x for lst in consts.values() for x in lst]
+                self._k2_alias = av
         # helpers `def H(self): if <c>: self.<ev> = T; return True ... return False` -- true exactly when the terminal was set
         helpers = {}            # method name -> terminal value
         for n in own_nodes(M.node):
@@ -1009,13 +1143,35 @@ class Core:
                     b_st = parent(b_st)
                 if b_st is a or b_st is None:
                     continue
-                if cfg.reachable(a, b_st):
+                avoid = []
+                if getattr(self, "_k2_alias", None):
+                    # once the local holds the event the loops guarded by it are left
+                    avoid = [w for w in own_nodes(M.node) if isinstance(w, ast.While) and self._tv(w.test, {self._k2_alias: (terminal,)}, M) is False]
+                if cfg.reachable(a, b_st, avoiding=avoid):
                     return Cert(None, why="%s may overwrite the terminal event %d after setting it (`%s`)" % (M.qualname, terminal, _u(b_st, 60)))
         run = _Run(sa, M)
         run.cut = cut
+        alias = getattr(self, "_k2_alias", None)
+        fkey = msn + "." + flag
         for n in own_nodes(M.node):
             if isinstance(n, ast.While) and is_self_attr(n.test, flag):
                 run.assume_true.add(id(n.test))
+            elif isinstance(n, ast.While) and alias is not None:
+                # `while self.<flag> and <alias> is None`: entered with the flag true and the local still None;
+                # it is left exactly by the assignments that falsify the guard
+                env0 = {fkey: (True,), alias: (None,)}
+                if self._tv(n.test, env0, M) is True:
+                    falsifiers_only = True
+                    for x in own_nodes(n):
+                        if isinstance(x, ast.Assign) and len(x.targets) == 1 and isinstance(x.targets[0], ast.Name) and x.targets[0].id == alias:
+                            c = self.b.fold(x.value, M)
+                            if isinstance(c, int) and self._tv(n.test, {fkey: (True,), alias: (c,)}, M) is False:
+                                if id(x) not in cut:
+                                    run.break_after.add(id(x))
+                            else:
+                                falsifiers_only = False
+                    if falsifiers_only:
+                        run.assume_true.add(id(n.test))
         o = run.block(M.node.body, SState())
         ex = s_join(o.fall, o.ret)
         prog = None
@@ -1032,11 +1188,13 @@ class Core:
                     r2 = _Run(sa, M)
                     r2.cut = cut
                     r2.assume_true = set(run.assume_true)
+                    r2.break_after = set(run.break_after)
                     r2.oracle = oracle
                     o2 = r2.block(M.node.body, SState())
                     e2 = s_join(o2.fall, o2.ret)
                     if e2 is not None and not r2.loose and not self._path_may_set(r2, t, msn, (ev, flag)) \
-                            and all(r2.read_result_is_inert(rc) for rc in r2.unchecked_reads):
+                            and all(r2.read_result_is_inert(rc) for rc in r2.unchecked_reads) \
+                            and all(self.callee_zero_path(t_, k_, 0) for t_, k_ in r2.zero_callees):
                         keys = [k for k in e2.keys() if k.startswith(msn + ".")]
                         if all(e2.p(k)[0] > -INF and e2.p(k)[0] <= 0 for k in keys):
                             c.definite = "%s returns on path %s without consuming input (%s), without the terminal event %d and with `%s` still true" % (
@@ -1054,7 +1212,7 @@ class Core:
             c.definite = c.why
             return c
         # 7. nothing else in the body moves X's stream
-        bk, rn, _ = sa.loop_effect(f, loop)
+        bk, rn, _ = self.le(f, loop)
         rn2 = _Run(sa, f)
         rn2.skip_calls = {id(call)}
         st = rn2.expr(loop.test, SState())
@@ -1236,7 +1394,7 @@ class Core:
         return None
 
     def k1_for(self, f: Func, loop) -> Cert:
-        back, run, out = self.sa.loop_effect(f, loop)
+        back, run, out = self.le(f, loop)
         return self._k1(back, run)
 
     def k1_comp(self, f: Func, comp, gi) -> Cert:
@@ -1319,7 +1477,8 @@ class Core:
                             why = "`%s` advanced %s with >= %d checked byte(s) before the call" % (k, iv_str(p), a)
                         else:
                             why = "`%s` advanced only %s with >= %d checked byte(s) before the call" % (k, iv_str(p), a)
-                            dfn = (-INF < p[0] <= 0) and not run.loose and all(run.read_result_is_inert(rc, on_path=False) for rc in run.unchecked_reads)
+                            dfn = (-INF < p[0] <= 0) and not run.loose and all(run.read_result_is_inert(rc, on_path=False) for rc in run.unchecked_reads) \
+                                and all(self.callee_zero_path(t_, k_, 0) for t_, k_ in run.zero_callees)
                 if not ok and self._shrinking_arg(cnode, params):
                     ok = True
                     why = "an argument is a strictly shorter slice of a parameter"
